@@ -4,6 +4,12 @@
    Q <isInt> <n> { <pol> <const> <coeff> <m> { <var> <q> }^m }^n      LA conflict with Farkas coefficients
    K <isInt> <n> { ... same ... }^n                                    LA clause (disjunction) with coefficients
         pol in {0,1}; const, coeff, q are rationals  [-]num/den ; var a positive integer
+   M <isInt> <hasD> [ <c> <kd1> <kd2> <m> { <var> <q> }^m ] <n> { <L|E> <pol> <c> <k1> <k2> <m> { <var> <q> }^m }^n
+        clause with equality atoms / unused literals (ThClause.mixed_clause_check): optional split disequality
+        (= s c) first, then the other literals with their coefficients for the two sides (0 = unused)
+   E <nnodes> { <fsym> <arity> { <child> }^arity }^nnodes <nlits> { <a> <b> <pol> }^nlits <ndcs> { <id> }^ndcs
+        EUF clause over a term DAG (CC.euf_clause_check); dcs = nodes with pairwise different values
+   A <sel> <sto> <...as E...>   the same with read-over-write instances for the symbols sel/sto (CC.arr_clause_check)
    Numbers are converted with Bits (decimal <-> bit list); Z/positive/Q stay the extracted datatypes. *)
 open Th_model
 
@@ -54,6 +60,86 @@ let la_query toks =
   if !i <> Array.length a then failwith "trailing tokens";
   (isint, List.rev !lits, List.rev !ks)
 
+let rec nat_of_int n = if n <= 0 then O else S (nat_of_int (n - 1))
+let nat_tab = Array.init 4096 (fun _ -> O)
+let () = for i = 1 to 4095 do nat_tab.(i) <- S nat_tab.(i - 1) done
+let nat_of_string s = let n = int_of_string s in if n >= 0 && n < 4096 then nat_tab.(n) else nat_of_int n
+
+let reader toks =
+  let a = Array.of_list toks in
+  let i = ref 0 in
+  let next () = if !i >= Array.length a then failwith "short" else (let x = a.(!i) in incr i; x) in
+  let fin () = if !i <> Array.length a then failwith "trailing tokens" in
+  (next, fin)
+
+let read_lin next =
+  let m = int_of_string (next ()) in
+  let t = ref [] in
+  for _ = 1 to m do
+    let v = pos_of_string (next ()) in
+    let q = q_of_string (next ()) in
+    t := (v, q) :: !t
+  done;
+  List.rev !t
+
+let mixed_query toks =
+  let (next, fin) = reader toks in
+  let isint = next () = "1" in
+  let hasd = next () = "1" in
+  let d, kd1, kd2 =
+    if hasd then begin
+      let c = q_of_string (next ()) in
+      let k1 = q_of_string (next ()) in
+      let k2 = q_of_string (next ()) in
+      let s = read_lin next in
+      (Some (s, c), k1, k2)
+    end else (None, q_of_string "0", q_of_string "0") in
+  let n = int_of_string (next ()) in
+  let rest = ref [] and ks1 = ref [] and ks2 = ref [] in
+  for _ = 1 to n do
+    let kind = next () in
+    let pol = next () = "1" in
+    let c = q_of_string (next ()) in
+    let k1 = q_of_string (next ()) in
+    let k2 = q_of_string (next ()) in
+    let s = read_lin next in
+    let g = match kind with
+      | "L" -> GLeq { lterm = s; lconst = c; lpol = pol }
+      | "E" -> GEq (s, c, pol)
+      | _ -> failwith "literal kind" in
+    rest := g :: !rest; ks1 := k1 :: !ks1; ks2 := k2 :: !ks2
+  done;
+  fin ();
+  mixed_clause_check isint d (List.rev !rest) kd1 (List.rev !ks1) kd2 (List.rev !ks2)
+
+let euf_query arr toks =
+  let (next, fin) = reader toks in
+  let selsto = if arr then (let a = pos_of_string (next ()) in let b = pos_of_string (next ()) in Some (a, b)) else None in
+  let nn = int_of_string (next ()) in
+  let g = ref [] in
+  for _ = 1 to nn do
+    let f = pos_of_string (next ()) in
+    let ar = int_of_string (next ()) in
+    let cs = ref [] in
+    for _ = 1 to ar do cs := nat_of_string (next ()) :: !cs done;
+    g := (f, List.rev !cs) :: !g
+  done;
+  let nl = int_of_string (next ()) in
+  let cl = ref [] in
+  for _ = 1 to nl do
+    let a = nat_of_string (next ()) in
+    let b = nat_of_string (next ()) in
+    let p = next () = "1" in
+    cl := ((a, b), p) :: !cl
+  done;
+  let nd = int_of_string (next ()) in
+  let dcs = ref [] in
+  for _ = 1 to nd do dcs := nat_of_string (next ()) :: !dcs done;
+  fin ();
+  match selsto with
+  | None -> euf_clause_check (List.rev !g) (List.rev !cl) (List.rev !dcs)
+  | Some (sel, sto) -> arr_clause_check sel sto (List.rev !g) (List.rev !cl) (List.rev !dcs)
+
 let () =
   try while true do
     let l = input_line stdin in
@@ -61,6 +147,9 @@ let () =
     (try match toks with
       | "Q" :: r -> let (i, lits, ks) = la_query r in print_endline (if la_conflict_check i lits ks then "1" else "0")
       | "K" :: r -> let (i, lits, ks) = la_query r in print_endline (if la_clause_check i lits ks then "1" else "0")
+      | "M" :: r -> print_endline (if mixed_query r then "1" else "0")
+      | "E" :: r -> print_endline (if euf_query false r then "1" else "0")
+      | "A" :: r -> print_endline (if euf_query true r then "1" else "0")
       | _ -> print_endline "bad query"
     with e -> print_endline ("bad " ^ Printexc.to_string e))
   done with End_of_file -> ()
